@@ -342,7 +342,15 @@ ExtCtx == {Ctx(pol, ct, TRUE, Z, V0, ChainOK, side, n)
                ct \in CTypes, side \in Sides, n \in {0, 1}}
 ExtCases == UNION {CasesOf(X, "extreme", FamExtreme(X)) : X \in ExtCtx}
 
-Cases0 == StdCases \cup InitCases \cup SizeCases \cup ChainCases \cup ExtCases
+\* thorough: as many HTLCs as BOLT-2 allows (counts that do not fit 8 bits)
+PolMany == [BasePol EXCEPT !.max_htlcs = 483, !.max_inflight = N(10000000)]
+ManyCtx == IF ~Thorough THEN {}
+           ELSE {Ctx(PolMany, ct, TRUE, PUSH0, V0, ChainOK, side, 1) : ct \in CTypes, side \in Sides}
+ManyCases == UNION {CasesOf(X, "many", {Shape(X, s[1], s[2], 1000)
+                      : s \in {<<483, 0>>, <<0, 483>>, <<484, 0>>, <<0, 484>>, <<241, 242>>, <<242, 242>>, <<256, 0>>, <<0, 257>>}})
+                    : X \in ManyCtx}
+
+Cases0 == StdCases \cup InitCases \cup SizeCases \cup ChainCases \cup ExtCases \cup ManyCases
 
 (***************************************************************************)
 (* Filters: for one representative of every class (set of broken rules,     *)
